@@ -275,7 +275,7 @@ fn run_program_inner(c: &Case, sx: &mut Sx, dump: &mut Vec<Option<(usize, usize,
         match *op {
             Op::Enc { dst, limbs, ld, ptlb, mag_bits, seed } => {
                 let ld = (ld as usize).clamp(12, p.ld_max);
-                let ptlb = (ptlb as usize).clamp(4, 12);
+                let ptlb = (ptlb as usize).clamp(4, 34);
                 // fresh ciphertexts stay within the parameter set's precision k (the evaluation keys hold k + dsize*base2k bits)
                 let k_enc = (limbs.clamp(2, 8) as usize).min(p.k / b) * b;
                 let prec = CKKSMeta { log_delta: ld, log_budget: ptlb };
@@ -788,7 +788,8 @@ fn run_program_inner(c: &Case, sx: &mut Sx, dump: &mut Vec<Option<(usize, usize,
             let sh = &reg.sh;
             // the actual value may sit anywhere within the error bound of the shadow: it has to fit the extraction budget
             let need = ((sh.mag() + 2.0 * sh.err).max(1.0).log2().ceil() as usize) + 3;
-            let dlb = sh.lb.min(62usize.saturating_sub(sh.ld));
+            // extraction budget: up to 110 bits in total, so that both integer widths of the decoder are exercised
+            let dlb = sh.lb.min(110usize.saturating_sub(sh.ld));
             if dlb < need || sh.ld > 53 {
                 continue;
             }
